@@ -52,13 +52,17 @@ type NodeSpec struct {
 // the world's op log) at which it strikes.
 type Fault struct {
 	AtOp  int    `json:"at_op"`
-	Kind  string `json:"kind"`            // fail | kill | eof | signal (Errno = SIGINT, SIGTERM, SIGHUP or SIGQUIT, delivered just before the operation)
+	Kind  string `json:"kind"`            // fail | kill | eof | extern (another process appends Data to Path just before the operation) | signal (Errno = SIGINT, SIGTERM, SIGHUP or SIGQUIT, delivered just before the operation)
 	Bytes int    `json:"bytes,omitempty"` // read/write ops: bytes let through first (-1: before the op)
 	Errno string `json:"errno,omitempty"` // for fail
 	// Sticky: once fired on a file write, every later write to a regular file
 	// fails with the same errno and writes nothing (disk full, quota or file
 	// size limit reached: the condition persists for the rest of the run).
 	Sticky bool `json:"sticky,omitempty"`
+	// extern: another process changes a file just before operation AtOp:
+	// Data is appended to the regular file at Path (its mtime advances).
+	Path string `json:"path,omitempty"`
+	Data Bytes  `json:"data,omitempty"`
 }
 
 // Knobs are the always-legal variations ("buggify") of the environment.
